@@ -31,6 +31,9 @@ type JNode struct {
 	Str  *StrV // JStr: decoded string
 	// BadUTF8: the text this tree was parsed from contains bytes that are not UTF-8 (inside this value)
 	BadUTF8 bool
+	// Esc: set only on the copy of a root that stands for a hashed / signed message (msgOf): the message is the
+	// HTML-escaped spelling of the value and the value contains a character that spelling escapes
+	Esc   bool
 	Elems   []*JNode
 	Keys    []*StrV
 	Vals    []*JNode
@@ -40,6 +43,9 @@ type JNode struct {
 type JDocV struct {
 	Root *JNode
 	Len  *Term // opaque length of the serialisation
+	// HTMLEsc: the text is what encoding/json.Marshal wrote: '<', '>', '&', U+2028 and U+2029 inside strings are spelled
+	// as \u escapes (cfg.Spellings only). CanonicalJSON / CompactJSON / SortJSON give a document without the flag.
+	HTMLEsc bool
 }
 
 type j2State struct {
